@@ -57,6 +57,24 @@ def _agent_loop(rf, wf):
             if op == "build":
                 handles[rq["h"]] = build(rq["term"])
                 reply({"ok": True, "is_expr": isinstance(handles[rq["h"]], p.Expression)})
+            elif op == "hash" and rq.get("frames") is not None:
+                # the first hash happens deep inside a call chain: only `frames` frames are left
+                o = handles[rq["h"]]
+                depth, fr = 0, sys._getframe()
+                while fr is not None:
+                    depth, fr = depth + 1, fr.f_back
+                old_limit = sys.getrecursionlimit()
+                sys.setrecursionlimit(depth + 4 + int(rq["frames"]))
+                try:
+                    hash(o)
+                    out = {"ok": True, "raised": None, "exhausted": False}
+                except RecursionError:
+                    out = {"ok": True, "raised": None, "exhausted": True}
+                except Exception as e:  # noqa: BLE001
+                    out = {"ok": True, "raised": f"hash: {type(e).__name__}: {str(e)[:200]}"}
+                finally:
+                    sys.setrecursionlimit(old_limit)
+                reply(out)
             elif op == "hash":
                 o = handles[rq["h"]]
                 try:
